@@ -261,10 +261,8 @@ void NifFile::SetShapeOrder(const std::vector<std::string>& order) {
 	}
 
 	auto root = GetRootNode();
-	if (root) {
-		sortState.newIndex = GetBlockID(root);
-		SetSortIndices(sortState.newIndex, sortState);
-	}
+	if (root)
+		SetSortIndices(GetBlockID(root), sortState);
 
 	for (size_t i = 0; i < sortState.newIndices.size(); i++) {
 		uint32_t index = static_cast<uint32_t>(i);
@@ -416,6 +414,11 @@ void NifFile::SortController(NiTimeController* controller, SortState& sortState)
 }
 
 void NifFile::SortCollision(NiObject* parent, uint32_t parentIndex, SortState& sortState) {
+	// Mark the parent as visited before descending, so that a reference cycle among
+	// collision blocks cannot recurse forever. Its sort index is still assigned after
+	// the blocks that have to come before it.
+	bool assignIndex = sortState.visitedIndices.insert(parentIndex).second;
+
 	auto constraint = dynamic_cast<bhkConstraint*>(parent);
 	if (constraint) {
 		for (auto& entityId : constraint->entityRefs) {
@@ -456,10 +459,8 @@ void NifFile::SortCollision(NiObject* parent, uint32_t parentIndex, SortState& s
 	}
 
 	// Assign new sort index
-	if (sortState.visitedIndices.count(parentIndex) == 0) {
+	if (assignIndex)
 		sortState.newIndices[parentIndex] = sortState.newIndex++;
-		sortState.visitedIndices.insert(parentIndex);
-	}
 
 	for (auto& id : childIndices) {
 		auto child = hdr.GetBlock<NiObject>(id);
@@ -541,7 +542,8 @@ void NifFile::SortGraph(NiNode* root, SortState& sortState) {
 
 			if (isRootNode) {
 				// Reorder shapes on root node if order is provided
-				if (sortState.rootShapeOrder.size() == shapeIndices.size()) {
+				if (sortState.rootShapeOrder.size() == shapeIndices.size()
+					&& std::is_permutation(shapeIndices.begin(), shapeIndices.end(), sortState.rootShapeOrder.begin())) {
 					std::vector<uint32_t> newShapeIndices(shapeIndices.size());
 					for (size_t si = 0; si < sortState.rootShapeOrder.size(); si++) {
 						auto it = find(shapeIndices, sortState.rootShapeOrder[si]);
@@ -582,7 +584,8 @@ void NifFile::SortGraph(NiNode* root, SortState& sortState) {
 
 			if (isRootNode) {
 				// Reorder shapes on root node if order is provided
-				if (sortState.rootShapeOrder.size() == shapeIndices.size()) {
+				if (sortState.rootShapeOrder.size() == shapeIndices.size()
+					&& std::is_permutation(shapeIndices.begin(), shapeIndices.end(), sortState.rootShapeOrder.begin())) {
 					std::vector<uint32_t> newShapeIndices(shapeIndices.size());
 					for (size_t si = 0; si < sortState.rootShapeOrder.size(); si++) {
 						auto it = find(shapeIndices, sortState.rootShapeOrder[si]);
@@ -1165,13 +1168,20 @@ void NifFile::TrimTexturePaths() {
 		if (tex.empty())
 			return tex;
 
-		// Replace multiple slashes or forward slashes with one backslash
-		tex = std::regex_replace(tex, std::regex("/+|\\\\+"), "\\");
+		// Replace every run of slashes and backslashes (also a mixed one like "/\") with one backslash
+		tex = std::regex_replace(tex, std::regex("[/\\\\]+"), "\\");
 
 		// Search for the first occurrence of "\textures\" (only if "textures\" isn't at the start)
 		std::smatch match;
 		std::regex pattern(R"(^(?!textures\\).*?\\textures\\)", std::regex_constants::icase);
 	
+		// A terrain path that already starts with "Data\textures\" is clean: take its "Data\" off (it is added
+		// back below). The search would strip the whole prefix and rebuild it, not always to the same path.
+		if (isTerrain)
+			tex = std::regex_replace(tex,
+									 std::regex("^Data\\\\(?=textures\\\\)", std::regex_constants::icase),
+									 "");
+
 		if (std::regex_search(tex, match, pattern))
 			tex = tex.substr(match[0].length()); // Remove matched string
 
@@ -1211,24 +1221,25 @@ void NifFile::TrimTexturePaths() {
 					std::string tex = i.get();
 					i.get() = fTrimPath(tex);
 				}
+			}
 
-				auto effectShader = dynamic_cast<BSEffectShaderProperty*>(shader);
-				if (effectShader) {
-					std::string tex = effectShader->sourceTexture.get();
-					effectShader->sourceTexture.get() = fTrimPath(tex);
+			// An effect shader has no texture set: its textures are members of the shader
+			auto effectShader = dynamic_cast<BSEffectShaderProperty*>(shader);
+			if (effectShader) {
+				std::string tex = effectShader->sourceTexture.get();
+				effectShader->sourceTexture.get() = fTrimPath(tex);
 
-					tex = effectShader->normalTexture.get();
-					effectShader->normalTexture.get() = fTrimPath(tex);
+				tex = effectShader->normalTexture.get();
+				effectShader->normalTexture.get() = fTrimPath(tex);
 
-					tex = effectShader->greyscaleTexture.get();
-					effectShader->greyscaleTexture.get() = fTrimPath(tex);
+				tex = effectShader->greyscaleTexture.get();
+				effectShader->greyscaleTexture.get() = fTrimPath(tex);
 
-					tex = effectShader->envMapTexture.get();
-					effectShader->envMapTexture.get() = fTrimPath(tex);
+				tex = effectShader->envMapTexture.get();
+				effectShader->envMapTexture.get() = fTrimPath(tex);
 
-					tex = effectShader->envMaskTexture.get();
-					effectShader->envMaskTexture.get() = fTrimPath(tex);
-				}
+				tex = effectShader->envMaskTexture.get();
+				effectShader->envMaskTexture.get() = fTrimPath(tex);
 			}
 		}
 
@@ -2385,7 +2396,9 @@ bool NifFile::GetNodeTransformToGlobal(const std::string& nodeName, MatTransform
 
 		MatTransform xform = node->GetTransformToParent();
 		NiNode* parent = GetParentNode(node);
-		while (parent) {
+		// Stop when a parent repeats: a cycle in the node graph must not hang the walk
+		std::set<NiNode*> visited{node};
+		while (parent && visited.insert(parent).second) {
 			xform = parent->GetTransformToParent().ComposeTransforms(xform);
 			parent = GetParentNode(parent);
 		}
@@ -2547,9 +2560,13 @@ uint32_t NifFile::GetShapeBoneWeights(NiShape* shape,
 		return 0;
 
 	NiSkinData::BoneData* bone = &skinData->bones[boneIndex];
-	for (auto& sw : bone->vertexWeights)
-		if (sw.weight >= EPSILON)
-			outWeights.emplace(sw.index, sw.weight);
+	for (auto& sw : bone->vertexWeights) {
+		// SkinWeight is packed: copy the members instead of binding references to them
+		const uint16_t index = sw.index;
+		const float weight = sw.weight;
+		if (weight >= EPSILON)
+			outWeights.emplace(index, weight);
+	}
 
 	return static_cast<uint32_t>(outWeights.size());
 }
@@ -2733,6 +2750,9 @@ bool NifFile::SetShapeBoneBounds(const std::string& shapeName,
 		if (!bsSkin)
 			return false;
 
+		if (boneIndex >= bsSkin->nBones)
+			return false;
+
 		bsSkin->boneXforms[boneIndex].bounds = inBounds;
 		return true;
 	}
@@ -2761,6 +2781,9 @@ bool NifFile::GetShapeBoneBounds(NiShape* shape, const uint32_t boneIndex, Bound
 	if (skinForBoneRef) {
 		auto boneData = hdr.GetBlock(skinForBoneRef->dataRef);
 		if (boneData) {
+			if (boneIndex >= boneData->nBones)
+				return false;
+
 			outBounds = boneData->boneXforms[boneIndex].bounds;
 			return true;
 		}
